@@ -135,6 +135,17 @@ def ensure_build(repo, log=None):
     lockpath = bdir + ".lock"
     no_cache = os.environ.get("VERIF_NO_CACHE") == "1"
     fd = os.open(lockpath, os.O_CREAT | os.O_RDWR, 0o644)
+    # fast path: a finished build only needs the shared lock (checks hold it for as long as they run; asking for
+    # the exclusive lock first would queue every new check behind all the running ones)
+    if not no_cache:
+        fcntl.flock(fd, fcntl.LOCK_SH)
+        if _built(bdir):
+            try:
+                os.utime(bdir, None)
+            except OSError:
+                pass
+            return bdir, fd, {"tree_hash": th, "cached": True, "build_s": round(time.time() - t0, 2), "files": len(files)}
+        fcntl.flock(fd, fcntl.LOCK_UN)
     fcntl.flock(fd, fcntl.LOCK_EX)
     cached = True
     try:
